@@ -22,6 +22,11 @@ class NetDriver:
         self.paused = set()
         self.events = []          # ('send', src, dst, msg, prio) / ('raise', node, exc) / custom
         self.schedule = []
+        # the schedule as Net.v sees it: pausing is a stutter of the model.  A delivery to a paused
+        # computation only moves the message into its hold buffer and resume() puts the held messages
+        # back at the head of their channels in order, so P / R actions and deliveries to a paused
+        # computation are not model actions.
+        self.model_schedule = []
         self._reinj = None
         self.t = 0
         for n, c in self.comps.items():
@@ -50,6 +55,8 @@ class NetDriver:
         self.schedule.append(list(act))
         self.t += 1
         kind = act[0]
+        if kind == "S" or (kind == "D" and act[2] not in self.paused):
+            self.model_schedule.append(list(act))
         try:
             if kind == "S":
                 n = act[1]
@@ -88,13 +95,23 @@ class NetDriver:
             self.do(a)
 
     # ---- schedule generation policies (all choices from rng)
-    def run_random(self, rng, max_steps=2000, policy="uniform", stop=None):
-        """policy: uniform | starve:<node> | drain | newest | startlate"""
+    def run_random(self, rng, max_steps=2000, policy="uniform", stop=None, pause_prob=0.0):
+        """policy: uniform | starve:<node> | drain | newest | startlate
+        pause_prob > 0: each step is, with that probability, a pause of a started computation or the
+        resume of a paused one (what the orchestrator does around scenario events); every computation
+        still paused at the end is resumed.  No rng draw is made for it when pause_prob == 0."""
         steps = 0
         starve = policy.split(":", 1)[1] if policy.startswith("starve:") else None
         while steps < max_steps:
             if stop is not None and stop(self):
                 break
+            if pause_prob and rng.random() < pause_prob:
+                cands = [["P", n] for n in self.names if n in self.started and n not in self.paused]
+                cands += [["R", n] for n in sorted(self.paused)] * 2
+                if cands:
+                    self.do(rng.choice(cands))
+                    steps += 1
+                    continue
             acts = self.enabled()
             if not acts:
                 break
@@ -119,6 +136,8 @@ class NetDriver:
                     acts = d_acts
             self.do(rng.choice(acts))
             steps += 1
+        for n in sorted(self.paused):
+            self.do(["R", n])
         return steps
 
     def in_flight(self):
